@@ -60,18 +60,26 @@ def script_messages(step: Dict[str, Any], rid: Any) -> List[dict]:
 
 
 class Script:
-    def __init__(self, steps):
+    def __init__(self, steps, init_by_method: bool = False):
         self.steps = steps
-        self.i = 0
+        self.i = 1 if init_by_method else 0
+        self.init_by_method = init_by_method
         self.seen: List[dict] = []
+        self.assigned: List[Any] = []  # step index answered for each id-bearing request, in order
 
     def answer(self, req: Any) -> List[dict]:
         self.seen.append(req)
         if not isinstance(req, dict) or "id" not in req or "method" not in req:
             return []
+        if self.init_by_method and req["method"] == "initialize":
+            # every initialize request (a client that failed to initialize tries again) gets the init step's answer
+            self.assigned.append(0)
+            return script_messages(self.steps[0], req["id"])
         if self.i >= len(self.steps):
+            self.assigned.append(None)
             return [{"jsonrpc": "2.0", "id": req["id"], "error": {"code": -32603, "message": "script exhausted"}}]
         step = self.steps[self.i]
+        self.assigned.append(self.i)
         self.i += 1
         return script_messages(step, req["id"])
 
@@ -141,10 +149,51 @@ async def drive(read, write, steps, log, q):
     return outcomes
 
 
-def run_carrier(carrier: str, steps: List[dict]) -> Dict[str, Any]:
-    loop = new_loop(horizon=120)
+async def drive_client(transport, steps, log, q):
+    """The same conversation through the high-level MCPClient over a Transport object
+    (the first call initializes implicitly; the script's first step answers that)."""
+    from chuk_mcp.client.client import MCPClient
+
+    outcomes = []
+    async with transport:
+        client = MCPClient(transport)
+        # record what the client's helpers receive
+        orig_get = transport.get_streams
+
+        async def get_streams():
+            r, w = await orig_get()
+            return Rec(r, log), w
+
+        transport.get_streams = get_streams
+        for step in steps[1:]:
+            h = step["helper"]
+            try:
+                if h == "tools/list":
+                    v = await client.list_tools()
+                elif h == "tools/call":
+                    v = await client.call_tool("t", {"a": TEXTS[1], "n": None})
+                elif h == "resources/read":
+                    v = await client.read_resource("file:///x")
+                elif h == "prompts/get":
+                    v = await client.get_prompt("p", {"q": TEXTS[2]})
+                else:
+                    raise KeyError(h)
+                if isinstance(v, list):
+                    v = [x.model_dump(by_alias=True, exclude_none=True) if hasattr(x, "model_dump") else x for x in v]
+                elif hasattr(v, "model_dump"):
+                    v = v.model_dump(by_alias=True, exclude_none=True)
+                outcomes.append(["ok", sched.jsonable(v)])
+            except BaseException as e:  # noqa: BLE001
+                outcomes.append(["exc", type(e).__name__, getattr(e, "code", None), str(e)[:120]])
+            await q.settle()
+        outcomes.append(["state", bool(client.initialized), getattr(client.server_info, "name", None)])
+    return outcomes
+
+
+def run_carrier(carrier: str, steps: List[dict], driver: str = "helpers") -> Dict[str, Any]:
+    loop = new_loop(horizon=400)
     q = seams.Quiescence(loop)
-    script = Script(steps)
+    script = Script(steps, init_by_method=(driver == "mcpclient"))
     log: List[Any] = []
     info: Dict[str, Any] = {}
 
@@ -167,8 +216,13 @@ def run_carrier(carrier: str, steps: List[dict]) -> Dict[str, Any]:
 
                 proc.on_stdin = on_stdin
                 with seams.patched_open_process(lambda cmd, kw: proc):
-                    async with stdio_client(seams.stdio_params()) as (read, write):
-                        info["outcomes"] = await drive(read, write, steps, log, q)
+                    if driver == "mcpclient":
+                        from chuk_mcp.transports.stdio.transport import StdioTransport
+
+                        info["outcomes"] = await drive_client(StdioTransport(seams.stdio_params()), steps, log, q)
+                    else:
+                        async with stdio_client(seams.stdio_params()) as (read, write):
+                            info["outcomes"] = await drive(read, write, steps, log, q)
             elif carrier in ("http-json", "http-sse"):
                 from chuk_mcp.transports.http.http_client import http_client
                 from chuk_mcp.transports.http.parameters import StreamableHTTPParameters
@@ -184,8 +238,14 @@ def run_carrier(carrier: str, steps: List[dict]) -> Dict[str, Any]:
                     return httpx.Response(200, headers={"content-type": "text/event-stream"}, content=body.encode("utf-8"))
 
                 with patched_httpx(handler):
-                    async with http_client(StreamableHTTPParameters(url="http://mcp.test/mcp", timeout=5.0)) as (read, write):
-                        info["outcomes"] = await drive(read, write, steps, log, q)
+                    if driver == "mcpclient":
+                        from chuk_mcp.transports.http.transport import StreamableHTTPTransport
+
+                        info["outcomes"] = await drive_client(
+                            StreamableHTTPTransport(StreamableHTTPParameters(url="http://mcp.test/mcp", timeout=5.0)), steps, log, q)
+                    else:
+                        async with http_client(StreamableHTTPParameters(url="http://mcp.test/mcp", timeout=5.0)) as (read, write):
+                            info["outcomes"] = await drive(read, write, steps, log, q)
             else:
                 from chuk_mcp.transports.sse.parameters import SSEParameters
                 from chuk_mcp.transports.sse.sse_client import sse_client
@@ -206,8 +266,14 @@ def run_carrier(carrier: str, steps: List[dict]) -> Dict[str, Any]:
                     return httpx.Response(202)
 
                 with patched_httpx(handler):
-                    async with sse_client(SSEParameters(url="http://sse.test", timeout=5.0)) as (read, write):
-                        info["outcomes"] = await drive(read, write, steps, log, q)
+                    if driver == "mcpclient":
+                        from chuk_mcp.transports.sse.transport import SSETransport
+
+                        info["outcomes"] = await drive_client(SSETransport(SSEParameters(url="http://sse.test", timeout=5.0)),
+                                                              steps, log, q)
+                    else:
+                        async with sse_client(SSEParameters(url="http://sse.test", timeout=5.0)) as (read, write):
+                            info["outcomes"] = await drive(read, write, steps, log, q)
 
     status, val = loop.run_main(main())
     errors = loop.collect_errors()
@@ -245,13 +311,18 @@ def run_carrier(carrier: str, steps: List[dict]) -> Dict[str, Any]:
             "transcript": [norm(m) for m in log], "outcomes": info.get("outcomes"),
             "requests": [{"method": r.get("method"), "params": r.get("params"), "has_id": "id" in r}
                          for r in script.seen if isinstance(r, dict)],
+            "assigned": list(script.assigned),
             "loop_errors": errors[:2]}
 
 
-def expected_transcript(steps) -> List[dict]:
+def expected_transcript(steps, assigned=None) -> List[dict]:
+    """What the script sent, request by request (assigned[i] = index of the step that answered request i)."""
     out = []
-    for i, s in enumerate(steps):
-        for m in script_messages(s, "RID"):
+    order = list(enumerate(range(len(steps)))) if assigned is None else list(enumerate(assigned))
+    for i, si in order:
+        msgs = [{"jsonrpc": "2.0", "id": "RID", "error": {"code": -32603, "message": "script exhausted"}}] if si is None \
+            else script_messages(steps[si], "RID")
+        for m in msgs:
             d = {"kind": classify(m)[0]}
             if "id" in m:
                 d["id"] = ["req", i]
@@ -265,9 +336,8 @@ def expected_transcript(steps) -> List[dict]:
 def run_one(ctl: explorer.Ctl, cfg: Dict[str, Any]) -> Dict[str, Any]:
     steps = cfg["steps"]
     carriers = [c for c in CARRIERS if not (c == "http-json" and any(s["notes"] for s in steps))]
-    results = {c: run_carrier(c, steps) for c in carriers}
+    results = {c: run_carrier(c, steps, cfg.get("driver", "helpers")) for c in carriers}
     viol: List[dict] = []
-    exp = expected_transcript(steps)
 
     def where(a, b):
         for i, (x, y) in enumerate(zip(a, b)):
@@ -281,6 +351,7 @@ def run_one(ctl: explorer.Ctl, cfg: Dict[str, Any]) -> Dict[str, Any]:
             viol.append({"sig": {"class": "carrier-did-not-finish", "carrier": c},
                          "msg": f"steps={steps} carrier={c}: {r['status']} {r['error']}"})
             continue
+        exp = expected_transcript(steps, r.get("assigned"))
         if not (len(r["transcript"]) == len(exp) and all(strict_eq(a, b) for a, b in zip(r["transcript"], exp))):
             aspect = "order-or-count" if sorted(json.dumps(x, sort_keys=True) for x in r["transcript"]) == \
                 sorted(json.dumps(x, sort_keys=True) for x in exp) or len(r["transcript"]) != len(exp) else "content"
@@ -337,6 +408,15 @@ def run(tier: str, only=None) -> core.Result:
         cfgs += [{"steps": [a, b, c]} for a in red for b in red for c in red]
     out = explorer.explore(RUN, cfgs, fidelity=True)
     sched.absorb(res, "conversations", RUN, out, cfgs)
+    # the same through the high-level MCPClient over the Transport classes (implicit initialize first)
+    init = {"helper": "initialize", "notes": 0, "answer": "result", "text": 1}
+    cl = [s for s in full if s["helper"] in ("tools/list", "tools/call", "resources/read", "prompts/get")]
+    clr = [s for s in red if s["helper"] in ("tools/list", "tools/call", "resources/read", "prompts/get")]
+    ccfgs = [{"driver": "mcpclient", "steps": [dict(init, notes=n, text=t), a]} for a in cl for n in (0, 1) for t in (1, 2)]
+    ccfgs += [{"driver": "mcpclient", "steps": [init, a, b]} for a in clr for b in clr]
+    ccfgs += [{"driver": "mcpclient", "steps": [dict(init, answer="error", code=c), a]} for a in clr for c in ERRORS]
+    out = explorer.explore(RUN, ccfgs, fidelity=True)
+    sched.absorb(res, "mcpclient-over-transports", RUN, out, ccfgs)
     res.coverage["carrier_runs"] = res.coverage["evaluations"] * len(CARRIERS)
     res.coverage["exhaustive"] = True
     res.coverage["rule"] = (
